@@ -7,10 +7,17 @@ EXPLANATION = (
     "Every function on the interpreter's parse path is executed symbolically with every modelled run-time error "
     "(IndexError, KeyError, AssertionError, TypeError on None, UnboundLocalError) as a possible exit; the obligations "
     "`noraise.*` show none can escape, `child.requires.*` show every callee is entered in a well-formed state, and "
-    "Parser.parse returns Pairs or raises PestParsingError(state). Termination is NOT decided (partial correctness)."
+    "Parser.parse returns Pairs or raises PestParsingError(state). Termination: every while loop on the parse path - "
+    "Repeat / RepeatOnce, ParserState.parse_trivia, PopAll and the emitted twins - has a variant (len(input) - position of "
+    "the last committed state, or the stack depth) proved non-negative and strictly decreasing at every back-edge "
+    "(`loopN.decreases`) under the property's precondition that a repeated expression / WHITESPACE / COMMENT that "
+    "matches consumes input; for loops run over finite sequences their bodies do not mutate (checked). Termination of "
+    "the recursion through rules (no left recursion) is NOT mechanised."
 )
 TRUSTED = g.COMMON_TRUSTED
-ASSUMPTIONS = [*g.COMMON_ASSUMPTIONS, "RecursionError / MemoryError are not modelled"]
+ASSUMPTIONS = [*g.COMMON_ASSUMPTIONS, "RecursionError / MemoryError are not modelled",
+               "termination hypotheses (C07's precondition): a successful match of a repeated child or of WHITESPACE / COMMENT moves the position forward - without them the `decreases` obligations are refutable (checked once: sat), with them proved",
+               "termination of recursion through rules: paper argument (lexicographic measure (len - pos, rules entered without progress) under 'free of left recursion'), not checked"]
 BOUNDED = ["bounded repetitions e{n}, e{n,}, e{,n}, e{m,n}: the delegation to the unrolled sequence is proved for all n; that unroll() builds the named sequence is run concretely for parameters 0..5 (contracts/unroll_struct.py)"]
 # functional clauses belong to C03-C06; C07 keeps exception-freedom, callee preconditions, loop invariants, entry point
 DROP_CLAUSES = r"^(K\.st\.|K\.pairs|G\.|frame\.)"
@@ -24,8 +31,13 @@ def specs(tier):
     # optimizer-only nodes: their parse() must be total too, including the pattern OptimizedChoice compiles lazily
     opt = [ops.SkipUntilSpec(), ops.RegexNodeSpec("RegexExpression"), ops.RegexNodeSpec("OptimizedChoice"), *t.skipuntil_templates()[:3], *t.regex_node_templates(),
            c02.SquashArms(), c02.LazyPatternsCompile()]
-    return [*g.core_terminals(), *g.stack_terminals(), *g.structure(), *g.backtracking(), *ops.bounded_repeat_specs(), *g.rules(), *g.trivia(), *g.entry(),
-            *t.all_templates(3 if tier == "quick" else 5), *opt]
+    out = [*g.core_terminals(), *g.stack_terminals(), *g.structure(), *g.backtracking(), *ops.bounded_repeat_specs(), *g.rules(), *g.trivia(), *g.entry(),
+           *t.all_templates(3 if tier == "quick" else 5), *opt]
+    for s in out:
+        # C07 "terminates": every while loop on the parse path (interpreter and emitted code) gets a `loopN.decreases` obligation
+        if hasattr(s, "termination_variant"):
+            s.termination = True
+    return out
 
 from .groups import concretise_ops
 concretise = concretise_ops(PROPERTY)
